@@ -440,6 +440,13 @@ func Follow(c *Ctx) error {
 			followCase{Tree: model.Tree{ln("a", "a/../b"), ln("b", ".")}, Reqs: []string{"a"}},
 			followCase{Tree: model.Tree{dr("d"), ln("d/l", "/e"), dr("e"), fl("f"), ln("m", "d/l/../f")}, Reqs: []string{"m"}},
 		)
+		// a cycle below a directory that an earlier request of the list already resolved (termination must not lean on the
+		// visited set being filled by exactly this request)
+		fixed = append(fixed,
+			followCase{Tree: model.Tree{fl("bar"), dr("dir"), ln("dir/l1", "l2"), ln("dir/l2", "l1")}, Reqs: []string{"bar", "dir", "dir/l1"}},
+			followCase{Tree: model.Tree{dr("dir"), ln("dir/l1", "/dir/l2/x"), ln("dir/l2", "l1")}, Reqs: []string{"dir", "dir/l1/y"}},
+			followCase{Tree: model.Tree{dr("dir"), dr("dir/sub"), ln("dir/sub/l", "../sub/l")}, Reqs: []string{"dir/sub", "dir", "dir/sub/l"}},
+		)
 		for i := range fixed {
 			fixed[i].Tree.Sort()
 		}
